@@ -177,6 +177,7 @@ struct OrdKind
 		return extra > 0 && m.length() + extra > m.kv().cap();
 	}
 	static void warm() { C m; const C& c = m; (void)c[KC::make(1)]; }
+	static bool shapeIs(const C&, int, const std::vector<int>&) { return true; }
 };
 
 // hash containers: C = HashMap<K,T> or HashDic<T>; NB = initial table size argument (0: default constructor, 256 bins)
@@ -228,6 +229,15 @@ struct HashKind
 		return false;
 	}
 	static void warm() { C m; const C& c = m; (void)c[KC::make(1)]; }
+	// implementation shape (spec/HashChains.tla): number of bins and enumeration order
+	static bool shapeIs(const C& m, int nb, const std::vector<int>& order)
+	{
+		if (m.a.length() - ASL_HMAP_SKIP != nb) return false;
+		size_t i = 0;
+		for (typename C::Enumerator e = m.all(); e; ++e, ++i)
+			if (i >= order.size() || KC::idOf(~e) != order[i]) return false;
+		return i == order.size();
+	}
 };
 
 // sets: values are all 1
@@ -277,6 +287,7 @@ struct SetKind
 		return false;
 	}
 	static void warm() {}
+	static bool shapeIs(const C&, int, const std::vector<int>&) { return true; }
 };
 
 #endif
